@@ -33,7 +33,7 @@ def run_verus_property(prop, tier, units, runner=None, assumptions=(), samples=(
     runner_bin = None
     if runner:
         try:
-            runner_bin = common.build_runner(runner['name'], runner['deps'], lock=runner.get('lock', True), extra_files=runner.get('extra_files'))
+            runner_bin = common.build_runner(runner['name'], runner['deps'], lock=runner.get('lock', True), extra_files=runner.get('extra_files'), extra_deps=runner.get('extra_deps'))
             budget = runner.get('budget_quick_ms', 3000) if tier == 'quick' else runner.get('budget_thorough_ms', 60000)
             rc, out, err, wall = common.run_cmd([runner_bin, 'search', str(common.seed()), str(budget)], timeout=budget / 1000 + 300)
             search = json.loads(out.strip().split('\n')[-1])
